@@ -467,13 +467,22 @@ func (w *World) probe(name string) {
 }
 
 type uuidReader struct {
-	mu  sync.Mutex
-	rng *rand.ChaCha8
+	mu       sync.Mutex
+	rng      *rand.ChaCha8
+	failLeft int // the next failLeft reads fail (the system's random source is unavailable)
+	failed   int
 }
+
+var errNoEntropy = errors.New("sim: random source unavailable")
 
 func (u *uuidReader) Read(p []byte) (int, error) {
 	u.mu.Lock()
 	defer u.mu.Unlock()
+	if u.failLeft > 0 {
+		u.failLeft--
+		u.failed++
+		return 0, errNoEntropy
+	}
 	return u.rng.Read(p)
 }
 
@@ -840,6 +849,9 @@ func (w *World) noop(why string) {
 }
 
 func (w *World) heal() {
+	w.uuidSrc.mu.Lock()
+	w.uuidSrc.failLeft = 0
+	w.uuidSrc.mu.Unlock()
 	w.mu.Lock()
 	if w.respKeyTorn {
 		w.respKeyVer++ // the rotation completes
@@ -910,6 +922,14 @@ func (w *World) step(s *Step) {
 			w.resumeTask(t, "")
 			w.settle()
 		}
+	case "randfail":
+		// the random source the message ids come from fails for the next reads (google/uuid's New panics on that; a library
+		// that swallows the error hands out the nil UUID)
+		w.uuidSrc.mu.Lock()
+		w.uuidSrc.failLeft = 1 + mod(s.Pick, 6)
+		w.uuidSrc.mu.Unlock()
+		w.fire("random_source_failure")
+		w.hist.add("randfail", -1, fmt.Sprint(1+mod(s.Pick, 6)))
 	case "cancel":
 		// the client of an in-flight request disconnects: net/http cancels the request context; the storage calls of this
 		// simulator (like many real ones) run on regardless
